@@ -1,5 +1,11 @@
 """C01 — Mendelian fidelity of the seven mating protocols (and of the mat_*/dense_* utilities).
 
+Round 4: the per-cross product nmating*nprogeny is formed in int64 by the repaired code (D70): its corpus cases are
+regression cases that must pass, mutants undo the repair in memory; new case kinds (unsorted / multi-chromosome variant
+metadata, strided xoprob, parent label forms, constructor kwargs, deep selfing, > 32767 lines); scripted generators no
+longer raise when the code asks for draws of another shape (a harmless rewrite of the draw pattern is a correspondence
+difference, not a crash); self-test economy (see run_impl).
+
 Round 3: histories on one protocol object, aliasing probes, narrow index dtypes, wide / long / many-cross sizes, tiny
 magnitudes, rarely used argument forms, draws through random()/random_sample(); util Spec evaluated in Lean.
 
@@ -16,6 +22,7 @@ import copy
 import importlib
 import inspect
 import json
+import os
 import random
 from fractions import Fraction
 
@@ -58,10 +65,37 @@ def _mods():
 
 
 # ---------------------------------------------------------------------------------- generators
+_ANCHORS = ("pybrops/breed/prot/mate/", "pybrops/core/util/mate.py", "pybrops/popgen/gmat/", "pybrops/core/mat/")
+_changed = []
+
+
+def _tree_changed():
+    """source watch (DESIGN 5.6): does an anchored source file differ from the recorded baseline?  Then the few very
+    large cases (> 32767 lines: ~15 s of model time) join the quick corpus; on the unchanged tree they run in the
+    thorough tier only.  VERIF_HEAVY=1 / 0 forces the answer."""
+    if os.environ.get("VERIF_HEAVY") in ("0", "1"):
+        return os.environ["VERIF_HEAVY"] == "1"
+    if not _changed:
+        try:
+            from .. import srcwatch
+            diff, _ = srcwatch.changed(compat.REPO)
+            _changed.append(bool(diff) and any(d.startswith(_ANCHORS) for d in diff))
+        except Exception:
+            _changed.append(False)
+    return _changed[0]
+
+
 def _script(rs, xo, den, shape):
     """boundary-seeking draws in [0,1), all multiples of 1/den; column j is compared with xo[j].
     Exact 0.0, the tie r == xoprob (no crossover), one step below the tie (crossover), and -- the values
     tolerance-style rewrites (isclose / eps / clip) trip over -- tiny positive draws (2^-53 .. ~1e-5)"""
+    if len(shape) != 2 or shape[1] != len(xo):
+        # the code asks for draws of a shape other than (gametes, markers) (a rewrite that draws transposed /
+        # flat / per chromosome): boundary seeking against xoprob[j] is meaningless, deliver plain multiples of
+        # 1/den; the model will not accept these shapes, so the difference shows as a correspondence failure
+        # while the Spec is still evaluated on what the code returns
+        flat = [rs.randrange(den) / den for _ in range(int(numpy.prod(shape)))]
+        return numpy.array(flat, dtype=float).reshape(shape)
     n, m = shape
     out = numpy.empty(shape, dtype=float)
     tiny = [Fraction(1, den)] + [Fraction(1, 2 ** k) for k in (50, 40, 30, 27, 17) if den % (2 ** k) == 0]
@@ -164,9 +198,12 @@ def _make_rng(spec, xo):
         it = iter(mats)
 
         def nxt(shape):
-            m = next(it)
-            if m.shape != tuple(shape):
-                raise RuntimeError(f"explicit draws: code requested {shape}, case supplies {m.shape}")
+            m = next(it, None)
+            if m is None or m.shape != tuple(shape):
+                # the code requests other shapes / more draws than the case scripts (a rewrite of the draw
+                # pattern): no crossover anywhere from here on (draw 1 - 1/den is below no probability < 1 ... and
+                # ties with xoprob = 1 only); reported through the correspondence, not as an exception
+                return numpy.full(tuple(shape), (spec["den"] - 1) / spec["den"], dtype=float)
             return m
         return _RecGen(numpy.random.PCG64(0), script=nxt), spec["den"]
     if mode == "const":
@@ -230,10 +267,31 @@ def _build_pgmat(case):
     D = _mods()["D"]
     mat = _layout(numpy.array(case["geno"], dtype="int8"), case.get("gorder", "C"))
     ntaxa, nv = mat.shape[1], mat.shape[2]
-    xo = numpy.array([float(_fr(v)) for v in case["xo"]], dtype=float)
+    xo = _layout(numpy.array([float(_fr(v)) for v in case["xo"]], dtype=float), case.get("xoorder", "C"))
     meta = case.get("meta", "full")
     kw = {}
-    if meta != "none":
+    if meta in ("unsorted", "chr3"):
+        # "unsorted": variants neither sorted nor grouped (chromosome labels interleaved, positions descending); the
+        #   matrix is used as it is (no group_vrnt()): the progeny must carry exactly this order and no group arrays.
+        # "chr3": several chromosomes, single-marker ones included (sizes in case["chr"]), grouped.
+        if meta == "unsorted":
+            chrgrp = [[2, 1, 3, 1, 2][j % 5] for j in range(nv)]
+            phypos = [100 * nv - 13 * j for j in range(nv)]
+        else:
+            chrgrp = [k + 1 for k, n in enumerate(case["chr"]) for _ in range(n)]
+            phypos = [5 * j + 2 for j in range(nv)]
+        kw.update(
+            vrnt_chrgrp=numpy.array(chrgrp, dtype="int64"),
+            vrnt_phypos=numpy.array(phypos, dtype="int64"),
+            vrnt_name=_obj([f"v{(7 * j) % 1000:03d}_{j}" for j in range(nv)]),
+            vrnt_genpos=numpy.array([((11 * j) % 17) / 16.0 for j in range(nv)], dtype=float) if meta == "unsorted"
+            else numpy.arange(nv, dtype=float) / 4.0,
+            vrnt_hapgrp=numpy.array([(3 * j) % 5 for j in range(nv)], dtype="int64"),
+            vrnt_mask=numpy.array([(j % 2) == 0 for j in range(nv)], dtype=bool),
+            vrnt_hapalt=_obj(["ACGT"[(j + 1) % 4] for j in range(nv)]),
+            vrnt_hapref=_obj(["TGCA"[(j + 2) % 4] for j in range(nv)]),
+        )
+    elif meta != "none":
         # two chromosome groups, already sorted, so that group_vrnt() is the identity permutation
         half = (nv + 1) // 2
         kw.update(
@@ -247,13 +305,19 @@ def _build_pgmat(case):
     if meta == "alleles":
         kw.update(vrnt_hapalt=_obj(["ACGT"[j % 4] for j in range(nv)]),
                   vrnt_hapref=_obj(["TGCA"[j % 4] for j in range(nv)]))
-    if case.get("bare_taxa"):
+    ptaxa = "bare" if case.get("bare_taxa") else case.get("ptaxa", "both")
+    if ptaxa == "bare":
         g = D(mat=mat, vrnt_xoprob=xo, **kw)                  # parents without names / groups
+    elif ptaxa == "names":                                    # names, no family labels
+        g = D(mat=mat, taxa=_obj([f"par{t:02d}" for t in range(ntaxa)]), vrnt_xoprob=xo, **kw)
+    elif ptaxa == "unsorted":                                 # family labels neither sorted nor grouped, duplicate names
+        g = D(mat=mat, taxa=_obj([f"par{(5 * t) % 3:02d}" for t in range(ntaxa)]),
+              taxa_grp=numpy.array([(7 * t + 2) % 3 for t in range(ntaxa)], dtype="int64"), vrnt_xoprob=xo, **kw)
     else:
         g = D(mat=mat, taxa=_obj([f"par{t:02d}" for t in range(ntaxa)]),
               taxa_grp=numpy.array([t // 2 for t in range(ntaxa)], dtype="int64"),
               vrnt_xoprob=xo, **kw)
-    if meta != "none" and nv > 0:
+    if meta not in ("none", "unsorted") and nv > 0:
         g.group_vrnt()
     return g, xo
 
@@ -325,7 +389,12 @@ class C01(Prop):
             "Fortran-ordered / strided / reversed xconfig and genotype arrays, numpy scalar counts and nself, miscout, "
             "rng=None -> global_prng, parents without names); a 5 % stream of inputs the code must reject; the mat_* / dense_* "
             "utilities directly (dense_* against the buffer-level model of core/util/mate.py, from-the-end and narrow-dtype "
-            "selections, partly inbred parents).  Non-trivial = at least one crossover drawn, at least one progeny and a cross "
+            "selections, partly inbred parents).  Round-4 kinds: count arrays of a narrow dtype whose per-cross product "
+            "exceeds the dtype (D70 regression: 132 / 256 / 260 / 381 / 510 progeny from int8 / uint8 counts, 33124 from int16) "
+            "and > 32767 lines to self; variant metadata neither sorted nor grouped (no group arrays), 3-6 chromosomes incl. "
+            "single-marker ones (with and without 0.5 at chromosome starts), vrnt_xoprob as a strided / reversed float64 view, "
+            "parents with names but no family labels / unsorted labels and duplicate names, constructor keywords through "
+            "mate(**kwargs), selfing depth 4-8.  Non-trivial = at least one crossover drawn, at least one progeny and a cross "
             "with two distinct parents (or a heterozygous selfed parent)")
     TRUSTED = ["numpy.repeat / arange / stack / lexsort / unique as modelled (Np.repeatEach, Np.arange, List.zip, "
                "Np.stableSort, Np.uniqueRuns); Python str order = code-point lexicographic order",
@@ -336,13 +405,19 @@ class C01(Prop):
                "assigned by mat_meiosis target only the buffer it allocated' is read off the source, the snapshot and "
                "aliasing probes of every case test it on the real objects"]
     ASSUMPTIONS = ["diploid input (two phases); selection indices in [-ntaxa, ntaxa) (numpy's index rule is modelled by wrapIdx)",
-                   "progeny/family counters are non-negative; nmating*nprogeny representable in the count dtype supplied",
+                   "progeny/family counters are non-negative; every per-cross product nmating*nprogeny below 2^63 (the code "
+                   "forms it in int64; exact for every count dtype of at most 32 bits: count_product_exact)",
                    "generation order of names is demanded only while progeny_counter + count <= 10^7 (7-digit zero fill); "
                    "beyond that the Spec demands a permutation with every name in its family, the model (and "
                    "order_characterised) the string-sorted arrangement (see order_preserved_counterexample)",
                    "aliasing between the progeny matrix and the parental matrix, and a later call changing an earlier "
                    "result, count as violations (a progeny that changes after it was returned is no longer the mosaic it was)"]
     _mask_known = False      # set while a self-test mutant runs: the known finding must not count as a kill
+    _scope = None            # while a self-test mutant runs: (kinds it can affect or None = all, about sizes?)
+    _obs_memo = {}           # id(case) -> (case, observation on the unmutated code, running number, heavy?)
+    _memo_n = 0
+    _ncorpus = 0
+    _first = None
 
     # ------------------------------------------------------------------ generation
     @staticmethod
@@ -409,6 +484,8 @@ class C01(Prop):
         ntaxa = rng.choice([1, 2, 3, 4, 5, 6, 8] + ([12] if big else []))
         nv = rng.choice(([1, 2, 3, 5, 8, 12, 24] + ([30] if big else [])) if mode.startswith("scripted") else [1, 2, 4, 6, 9])
         nself = rng.choice([0, 0, 0, 1, 1, 2, 3])
+        if rng.random() < 0.04:
+            nself = rng.choice([4, 5, 6, 8])                  # deep single-seed descent (per-copy test only)
         if nself in (1, 2) and proto in ("4w", "4wdh", "3wdh"):
             nv = min(nv, 8 if nself == 1 else 5)              # joint pedigree test: 2^9 .. 2^11 hidden states per marker
         gs = rng.choice(["copy", "copy", "cell", "biallelic", "int8", "partinbred"])
@@ -451,11 +528,29 @@ class C01(Prop):
         spec = {"mode": mode, "seed": rng.randrange(2 ** 31)}
         if mode.startswith("scripted"):
             spec["den"] = den
-        meta = rng.choice(["full"] * 7 + ["none", "none", "alleles"])
+        meta = rng.choice(["full"] * 7 + ["none", "none", "alleles", "unsorted", "unsorted", "chr3", "chr3"])
         c = self._mk(proto, geno, xo, xc, nmating, nprogeny, nself, pc, fc, spec, meta)
+        if meta == "chr3":
+            c["chr"] = self._chr_sizes(rng, nv)
+            if rng.random() < 0.5:                            # independent assortment written into xoprob
+                st, xs = 0, list(xo)
+                for n_ in c["chr"]:
+                    xs[st] = Fraction(1, 2)
+                    st += n_
+                c["xo"] = canon.enc(xs)
         if not plain and rng.random() < 0.4:
             self._options(rng, c, neg)
         return c
+
+    @staticmethod
+    def _chr_sizes(rng, nv):
+        """a partition of the markers into chromosomes, single-marker chromosomes included"""
+        out, left = [], nv
+        while left > 0:
+            n = min(left, rng.choice([1, 1, 2, 3, 5]))
+            out.append(n)
+            left -= n
+        return out
 
     @staticmethod
     def _options(rng, c, neg):
@@ -477,6 +572,12 @@ class C01(Prop):
             c["rng_none"] = True
         if rng.random() < 0.15:
             c["bare_taxa"] = True
+        elif rng.random() < 0.2:
+            c["ptaxa"] = rng.choice(["names", "unsorted"])
+        if rng.random() < 0.25:
+            c["xoorder"] = rng.choice(["view", "rev"])
+        if rng.random() < 0.15:
+            c["ctor_kwargs"] = True
 
     def _narrow_case(self, rng, proto=None, force=None):
         """xconfig stored in a narrow integer dtype and more matings / progeny / candidate taxa than that dtype
@@ -581,7 +682,7 @@ class C01(Prop):
         steps = []
         for k in range(rng.choice([2, 2, 3])):
             if k == 0:
-                st = {f: first[f] for f in ("geno", "xo", "xconfig", "nmating", "nprogeny", "nself", "meta")}
+                st = {f: first[f] for f in ("geno", "xo", "xconfig", "nmating", "nprogeny", "nself", "meta", "chr") if f in first}
             else:
                 prev = steps[-1]
                 pcount = self._count(prev)
@@ -632,6 +733,7 @@ class C01(Prop):
                     st["nprogeny"] = rng.choice([rng.randint(1, 2), [rng.randint(1, 2) for _ in range(nc)]])
                 if rng.random() < 0.3:
                     st["nself"] = rng.choice([0, 1, 2])
+                st["prime"] = rng.random() < 0.4
             steps.append(st)
         c = {"kind": "hist", "proto": proto, "steps": steps, "pc": first["pc"], "fc": first["fc"], "rng": first["rng"]}
         if rng.random() < 0.15:
@@ -679,6 +781,8 @@ class C01(Prop):
             c["sdtype"] = rng.choice(["int8", "int64"])
         if rng.random() < 0.25:
             c["gorder"] = rng.choice(["F", "view", "rev"])
+        if rng.random() < 0.2:
+            c["xoorder"] = rng.choice(["view", "rev"])
         if fn == "mate":
             mt = rng.randint(1, 4)
             c["mgeno"] = self._geno(rng, mt, nv, "int8")
@@ -687,7 +791,14 @@ class C01(Prop):
 
     @staticmethod
     def _np_case(rng):
-        fn = rng.choice(["repeat", "lexsort", "zfill", "mulwrap"])
+        fn = rng.choice(["repeat", "lexsort", "zfill", "mulwrap", "mul64"])
+        if fn == "mul64":
+            # the repaired per-cross product numpy.multiply(nmating, nprogeny, dtype="int64") on narrow count dtypes
+            dt = rng.choice(["int8", "uint8", "int16", "uint16", "int32", "uint32", "int64"])
+            n = rng.randint(1, 5)
+            hi = int(numpy.iinfo(dt).max) if dt != "int64" else 2 ** 31
+            pick = lambda: rng.choice([hi, hi - 1, rng.randint(0, hi), rng.randint(0, min(hi, 300))])
+            return {"kind": "np", "fn": fn, "dtype": dt, "a": [pick() for _ in range(n)], "b": [pick() for _ in range(n)]}
         if fn == "mulwrap":
             dt = rng.choice(["int8", "uint8", "int16", "uint16"])
             n = rng.randint(1, 5)
@@ -796,15 +907,22 @@ class C01(Prop):
             st2 = dict(st0, xo=canon.enc([0, half, 0, half]), reuse="inplace", xo_assign=False)
             out.append({"kind": "hist", "proto": k, "steps": [st0, st1, st2], "pc": 0, "fc": 0,
                         "rng": {"mode": "const", "den": 64, "vals": [16]}})
-        # finding D70: nmating * nprogeny formed in a narrow count dtype (self / two-way / three-way); the DH protocols,
-        # which never form the product, take the same counts correctly
+        # D70 regression (repaired: the per-cross product is formed in int64): nmating * nprogeny beyond the range of a
+        # narrow count dtype (self / two-way / three-way form the product; the DH / four-way protocols never did)
         for k, cd, nm_, np_ in (("self", "uint8", [20], [13]), ("2w", "int8", [16], [16]), ("2w", "int8", [12], [11]),
-                                ("3w", "uint8", [20], [13]), ("self", "int16", [200, 1], [200, 2]),
-                                ("2wdh", "uint8", [20], [13]), ("3wdh", "int8", [16], [16])):
+                                ("3w", "uint8", [20], [13]),
+                                ("2wdh", "uint8", [20], [13]), ("3wdh", "int8", [16], [16]), ("3w", "int8", [12, 3], [11, 50]),
+                                ("self", "int8", [127], [3]), ("2w", "uint8", [255, 2], [2, 100]), ("4w", "uint8", [20], [13])):
             c_ = self._mk(k, g4, xo6, [list(range(PROTOS[k][1]))] * len(nm_), nm_, np_, 0, 0, 0,
                           {"mode": "pcg64", "seed": 70}, meta="none")
             c_["cdtype"] = cd
             out.append(c_)
+        #     int16 counts 182 x 182 = 33124 > 32767 (one marker keeps the case small)
+        #     and more lines to self than an int16 index counts
+        #     (~15 s of model time: in the quick tier only when an anchored source differs from the baseline; always
+        #     in the thorough tier, see generate())
+        if _tree_changed():
+            out += [self._int16_case("2w"), self._int16_case("self")]
         # (f) rarely used argument forms, one per protocol
         for i, k in enumerate(list(PROTOS) * 2):
             c_ = self._mk(k, g4, xo6, [list(range(PROTOS[k][1])), [3, 3, 1, 0][:PROTOS[k][1]]], [2, 1], [1, 2], i % 3, 4, 1,
@@ -815,6 +933,24 @@ class C01(Prop):
                        ("gorder", ["view", "F", "rev", "C", "F"][(i + 2 * (i // 7)) % 5]),
                        ("nself_np", i % 2 == 0), ("miscout", i % 2 == 1), ("rng_none", i % 3 == 0), ("bare_taxa", i % 3 == 1)])
             out.append(c_)
+        # --- round 4
+        # (g) variant metadata neither sorted nor grouped (the matrix is used as it is); several chromosomes with
+        #     single-marker ones; crossover probabilities in a strided / reversed float64 view; parents with names
+        #     but no family labels / with unsorted labels and duplicate names; constructor keywords through mate()
+        for i, k in enumerate(PROTOS):
+            c_ = self._mk(k, g4, xo6, [list(range(PROTOS[k][1])), [3, 1, 2, 0][:PROTOS[k][1]]], [1, 2], [2, 1], i % 2, 7, 2,
+                          sc(400 + i), meta=["unsorted", "chr3"][i % 2])
+            if c_["meta"] == "chr3":
+                c_["chr"] = [[1, 2, 1, 2], [3, 1, 1, 1], [1, 1, 1, 1, 1, 1], [2, 4]][i % 4]
+            c_["xoorder"] = ["view", "rev", "C"][i % 3]
+            c_["ptaxa"] = ["names", "unsorted", "both"][(i + 1) % 3]
+            c_["ctor_kwargs"] = i % 2 == 0
+            out.append(c_)
+        # (h) deep single-seed descent (nself 5 .. 8), two crosses with disjoint parents
+        for i, k in enumerate(["self", "2w", "3wdh", "4w"]):
+            npar_ = PROTOS[k][1]
+            xc_ = [list(range(npar_)), [3, 2, 1, 0][:npar_]] if npar_ < 3 else [list(range(npar_)), [3, 3, 3, 3][:npar_]]
+            out.append(self._mk(k, g4, xo6, xc_, [1, 2], 2, [5, 6, 8, 5][i], 0, 0, sc(420 + i)))
         out.append({"kind": "util", "fn": "meiosis", "module": "core", "geno": g4, "xo": canon.enc(xo6),
                     "sel": [3, 0, 0], "rng": sc(30)})
         out.append({"kind": "util", "fn": "dh", "module": "core", "geno": g4, "xo": canon.enc(xo6),
@@ -825,6 +961,15 @@ class C01(Prop):
         out.append({"kind": "util", "fn": "dh", "module": "util", "geno": g4, "xo": canon.enc(xo6),
                     "sel": [1, 2], "rng": sc(31)})
         return out
+
+    def _int16_case(self, k_):
+        """int16 counts 182 x 182 = 33124 > 32767 progeny of one cross, then one selfing generation: more lines to
+        self than an int16 index counts (one marker keeps the case small)"""
+        g1 = [[[-128], [-126], [-124], [-122]], [[-127], [-125], [-123], [-121]]]
+        c_ = self._mk(k_, g1, [Fraction(1, 2)], [[0, 1][:PROTOS[k_][1]], [2, 3][:PROTOS[k_][1]]], [182, 1], [182, 2], 1, 0, 0,
+                      {"mode": "pcg64", "seed": 71}, meta="none")
+        c_["cdtype"] = "int16"
+        return c_
 
     def exhaustive(self, tier):
         """thorough tier: every crossover mask of 1-4 markers through both meiosis implementations, and
@@ -854,7 +999,9 @@ class C01(Prop):
     def generate(self, rng, n, tier):
         out = []
         protos = list(PROTOS)
-        for i in range(n):
+        if tier == "thorough" and not _tree_changed():
+            out += [self._int16_case("2w"), self._int16_case("self")]
+        for i in range(len(out), n):
             r = rng.random()
             pr = protos[i % len(protos)]
             if r < 0.05:
@@ -876,9 +1023,51 @@ class C01(Prop):
         return out
 
     # ------------------------------------------------------------------ implementation
+    SELFTEST_SAMPLE = 260    # generated cases (after the corpus) that every self-test mutant is evaluated on
+
     def run_impl(self, case):
+        """Self-test economy (the kill criterion only needs ONE case that passes on the unmutated code and fails under
+        the mutant).  While a mutant runs, a case is answered with the observation made on the unmutated code — i.e. it
+        cannot witness a kill — when (a) the mutant edits one protocol class only and the case belongs to another
+        protocol (it cannot be affected), (b) the case is one of the few very large ones (> 5000 progeny / markers) and
+        the mutant is not about sizes, or (c) it lies beyond the first SELFTEST_SAMPLE generated cases."""
+        key = id(case)
+        if self._mask_known:
+            hit = self._obs_memo.get(key)
+            if hit is not None and hit[0] is case:
+                scope, heavy = self._scope if self._scope is not None else (None, False)
+                if (scope is not None and (case.get("proto") or case["kind"]) not in scope) \
+                        or (hit[3] and not heavy) or hit[2] >= self._ncorpus + self.SELFTEST_SAMPLE:
+                    return dict(hit[1])
+            return self._run_impl(case)
+        obs = self._run_impl(case)
+        if self._first is None:
+            cp = self.corpus()
+            C01._first, C01._ncorpus = cp[0], len(cp)
+        if len(self._obs_memo) > 4000:
+            self._obs_memo.clear()
+        if not self._obs_memo or case == self._first:      # a new batch starts with the corpus: number from 0
+            self._memo_n = 0
+        if key not in self._obs_memo or self._obs_memo[key][0] is not case:
+            self._obs_memo[key] = (case, dict(obs), self._memo_n, self._heavy(case))
+            self._memo_n += 1
+        return obs
+
+    @staticmethod
+    def _heavy(case):
+        if case.get("kind") in PROTOS:
+            try:
+                return C01._count(case) > 5000 or len(case["xo"]) > 5000
+            except Exception:
+                return False
+        return case.get("kind") == "util" and len(case["xo"]) > 5000
+
+    def _run_impl(self, case):
         mods = _mods()
         if case["kind"] == "np":
+            if case["fn"] == "mul64":
+                return {"res": [int(v) for v in numpy.multiply(numpy.array(case["a"], dtype=case["dtype"]),
+                                                               numpy.array(case["b"], dtype=case["dtype"]), dtype="int64")]}
             if case["fn"] == "mulwrap":
                 with numpy.errstate(all="ignore"):
                     return {"res": [int(v) for v in numpy.array(case["a"], dtype=case["dtype"])
@@ -937,6 +1126,8 @@ class C01(Prop):
         cnt0 = [copy.deepcopy(nm), copy.deepcopy(npg)]
         nself = numpy.int64(step["nself"]) if step.get("nself_np") else step["nself"]
         kw = {"miscout": {}} if step.get("miscout") else {}
+        if step.get("ctor_kwargs"):
+            kw["auxiliary"] = 1                    # `**kwargs` of mate() go to the progeny matrix constructor
         pc0, fc0 = int(prot.progeny_counter), int(prot.family_counter)
         k0, c0 = len(rng.log), len(rng.calls)
         try:
@@ -997,6 +1188,12 @@ class C01(Prop):
                 st = dict(st, kind=case["proto"])
                 hold["xo"] = [_fr(v) for v in st["xo"]]
                 how = st.get("reuse", "new")
+                if st.get("prime") and g is not None:
+                    for q in ("afreq", "tacount", "gtcount"):
+                        try:
+                            getattr(g, q)()
+                        except Exception:
+                            pass
                 if how == "chain":
                     g = keep[-1][1]                              # the object the previous call returned
                     st = dict(st, geno=g.mat.astype(int).tolist())
@@ -1009,6 +1206,15 @@ class C01(Prop):
                         g.vrnt_xoprob = xo
                     else:
                         g.vrnt_xoprob[...] = xo
+                if st.get("prime"):
+                    # read-only queries on the parental matrix (and on the previous result) before the edit / the
+                    # call: whatever they memoise must not leak into mate()
+                    for obj in [g] + ([keep[-1][1]] if keep else []):
+                        for q in ("afreq", "tacount", "gtcount", "mat_asformat"):
+                            try:
+                                getattr(obj, q)("{0,1,2}") if q == "mat_asformat" else getattr(obj, q)()
+                            except Exception:
+                                pass
                 npar = PROTOS[case["proto"]][1]
                 if xc is not None and st.get("xreuse") and xc.shape == (len(st["xconfig"]), npar) and st["xconfig"]:
                     xc[...] = numpy.array(st["xconfig"], dtype=xc.dtype)
@@ -1033,7 +1239,7 @@ class C01(Prop):
         fn = getattr(mod, names[["meiosis", "dh", "mate"].index(case["fn"])])
         geno = _layout(numpy.array(case["geno"], dtype="int8"), case.get("gorder", "C"))
         g0 = geno.copy()
-        xo = numpy.array([float(_fr(v)) for v in case["xo"]])
+        xo = _layout(numpy.array([float(_fr(v)) for v in case["xo"]]), case.get("xoorder", "C"))
         sdt = case.get("sdtype", "int64")
         sel = numpy.array(case["sel"], dtype=sdt)
         rng, den = _make_rng(case["rng"], [_fr(v) for v in case["xo"]])
@@ -1210,7 +1416,7 @@ class C01(Prop):
             return False
         xo = [_fr(v) for v in case["xo"]]
         den = obs["dden"]
-        xover = any(Fraction(v, den) < xo[j] for m in obs["draws"] for r in m for j, v in enumerate(r))
+        xover = any(j < len(xo) and Fraction(v, den) < xo[j] for m in obs["draws"] for r in m for j, v in enumerate(r))
         g = case["geno"]
         nt = len(g[0])
         het = any(len({v % nt for v in r}) > 1 or g[0][r[0] % nt] != g[1][r[0] % nt] for r in case["xconfig"])
@@ -1237,7 +1443,7 @@ class C01(Prop):
                 _mosaic([g[0][s], g[1][s]], xo, row) for s, row in zip(case["sel"], res[0])) and all(
                 _mosaic([mg[0][s], mg[1][s]], xo, row) for s, row in zip(case["msel"], res[1]))
         den = obs["dden"]
-        xover = any(Fraction(v, den) < xo[j] for mm in obs["draws"] for r in mm for j, v in enumerate(r))
+        xover = any(j < len(xo) and Fraction(v, den) < xo[j] for mm in obs["draws"] for r in mm for j, v in enumerate(r))
         # the verdict is the Lean oracle's (Mating.specGametes/specDh/specCross, proved sound and complete); the
         # Python recurrence above is an independent second implementation that must agree with it
         py_spec = spec
@@ -1250,8 +1456,8 @@ class C01(Prop):
     # ------------------------------------------------------------------ findings / shrinking
     @staticmethod
     def _count_product_wraps(case):
-        """finding D70: a per-cross product nmating*nprogeny that the count dtype of the case cannot hold, in one of the
-        three protocols that form the product in that dtype"""
+        """D70 (repaired): a per-cross product nmating*nprogeny that the count dtype of the case cannot hold, in one of the
+        three protocols that form the product"""
         if case.get("kind") not in ("self", "2w", "3w") or case.get("cdtype") in (None, "int64", "uint64"):
             return False
         dt = numpy.dtype(case["cdtype"])
@@ -1265,8 +1471,7 @@ class C01(Prop):
         failed = verdict.get("failed") or []
         sig = {"kind": case.get("kind"), "site": "mate" if case.get("kind") != "util" else "util"}
         if self._count_product_wraps(case):
-            sig["cond"] = "count_product_wraps"
-            return sig
+            sig["count_product_wraps"] = True          # D70 (repaired): informative only, no finding matches it
         if failed and all(f.startswith("meta_lost:") for f in failed):
             lost = set(failed[0].split(":", 1)[1].split(","))
             sig["cond"] = "hapalt_hapref_dropped" if lost <= KNOWN_META else "vrnt_metadata_dropped"
@@ -1292,7 +1497,7 @@ class C01(Prop):
             chained = any(st.get("reuse") == "chain" for st in steps)
             for st in steps:                              # a single call that fails by itself
                 if st.get("geno") is not None:
-                    yield dict({k: v for k, v in st.items() if k not in ("reuse", "xreuse", "xo_assign")},
+                    yield dict({k: v for k, v in st.items() if k not in ("reuse", "xreuse", "xo_assign", "prime")},
                                kind=case["proto"], pc=case["pc"], fc=case["fc"], rng=case["rng"])
             if len(steps) > 1:
                 yield dict(case, steps=steps[:-1])
@@ -1316,7 +1521,8 @@ class C01(Prop):
             if case.get("rng_none"):
                 yield {k: v for k, v in case.items() if k != "rng_none"}
             return
-        for opt in ("xdtype", "xorder", "cdtype", "gorder", "nself_np", "miscout", "rng_none", "bare_taxa"):
+        for opt in ("xdtype", "xorder", "cdtype", "gorder", "nself_np", "miscout", "rng_none", "bare_taxa", "ptaxa", "xoorder",
+                    "ctor_kwargs"):
             if opt in case:                               # drop a rarely used argument form
                 yield {k: v for k, v in case.items() if k != opt}
         xc = case["xconfig"]
@@ -1333,6 +1539,14 @@ class C01(Prop):
                 c = dict(case)
                 c["xo"] = case["xo"][:j] + case["xo"][j + 1:]
                 c["geno"] = [[r[:j] + r[j + 1:] for r in ph] for ph in case["geno"]]
+                if "chr" in case:                          # the chromosome holding marker j loses it
+                    sizes, st = list(case["chr"]), 0
+                    for k, n_ in enumerate(sizes):
+                        if j < st + n_:
+                            sizes[k] -= 1
+                            break
+                        st += n_
+                    c["chr"] = [n_ for n_ in sizes if n_ > 0]
                 yield c
         ntaxa = len(case["geno"][0])
         if any(v < 0 for r in xc for v in r) and not case.get("expect_error"):
@@ -1359,7 +1573,7 @@ class C01(Prop):
             yield dict(case, pc=0)
         if case["fc"]:
             yield dict(case, fc=0)
-        if case.get("meta") == "full":
+        if case.get("meta") in ("full", "chr3", "alleles"):
             yield dict(case, meta="none")
 
     # ------------------------------------------------------------------ self-test mutants
@@ -1368,13 +1582,24 @@ class C01(Prop):
         prop = self
 
         @contextlib.contextmanager
-        def masked(inner):
+        def masked(inner, scope=None):
             prop._mask_known = True
+            prop._scope = scope
             try:
                 with inner():
                     yield
             finally:
                 prop._mask_known = False
+                prop._scope = None
+
+        def scope_of(name):
+            """mutants named `[rN_]<protocol>_...` edit that protocol's class (or its module's imported names) only;
+            names containing `int16` / `blockwise` / `column_blocks` are about sizes (very large cases are evaluated)"""
+            parts = name.split("_")
+            if parts[0] in ("r3", "r4"):
+                parts = parts[1:]
+            heavy = any(t in name for t in ("int16", "blockwise", "column_blocks"))
+            return ({parts[0]} if parts[0] in PROTOS else None, heavy)
 
         @contextlib.contextmanager
         def setattr_ctx(obj, name, new):
@@ -1392,7 +1617,8 @@ class C01(Prop):
             olds, news = ([old], [new]) if isinstance(old, str) else (old, new)
             for old, new in zip(olds, news):
                 if src.count(old) < 1 and "nmating * nprogeny" in old:
-                    # the tree with the proposed repair of finding D70 names the int64 product `nxprogeny`
+                    # since the repair of D70 the int64 product is named `nxprogeny` (a tree from before the repair
+                    # still has the inline product)
                     old, new = old.replace("nmating * nprogeny", "nxprogeny"), new.replace("nmating * nprogeny", "nxprogeny")
                 if src.count(old) < 1:
                     raise RuntimeError(f"mutant anchor not found in {fn.__qualname__}: {old!r}")
@@ -1525,10 +1751,80 @@ class C01(Prop):
                 return b
             return f
 
+        def chr_reset_ctx(k):
+            """per-chromosome meiosis: the copy loop restarts on copy 0 at every chromosome start of the parental
+            matrix (instead of leaving independent assortment to xoprob): a source change at a chromosome start whose
+            crossover probability is 0"""
+            mod, c = mods[k]
+
+            def _chr_meiosis(pgmat, geno, sel, xoprob, rng):
+                gshape = (len(sel), len(xoprob))
+                rnd = rng.uniform(0, 1, gshape)
+                gamete = numpy.empty(gshape, dtype=geno.dtype)
+                starts = [0] if pgmat.vrnt_chrgrp_stix is None else [int(v) for v in pgmat.vrnt_chrgrp_stix]
+                stops = starts[1:] + [gshape[1]]
+                for i, s_ in enumerate(sel):
+                    for c0, c1 in zip(starts, stops):
+                        phase, stix = 0, c0
+                        for spix in numpy.flatnonzero(rnd[i, c0:c1] < xoprob[c0:c1]) + c0:
+                            gamete[i, stix:spix] = geno[phase, s_, stix:spix]
+                            stix = spix
+                            phase = 1 - phase
+                        gamete[i, stix:c1] = geno[phase, s_, stix:c1]
+                return gamete
+
+            def _chr_mate(pgmat, fg, mg, fs, ms, xo, rng):
+                return numpy.stack([_chr_meiosis(pgmat, fg, fs, xo, rng), _chr_meiosis(pgmat, mg, ms, xo, rng)])
+
+            newfn = mutate_src(c.mate, "mat_mate(", "_chr_mate(pgmat, ", "all")
+
+            @contextlib.contextmanager
+            def ctx():
+                mod._chr_mate = _chr_mate
+                try:
+                    with setattr_ctx(c, "mate", newfn):
+                        yield
+                finally:
+                    del mod._chr_mate
+            return ctx
+
+        def product_in_count_dtype(k):
+            """undo the repair of D70 in memory: the per-cross product formed in the dtype of the count arrays again"""
+            import re
+            fn = getattr(cls(k), "mate")
+            src = inspect.getsource(fn).replace("\r\n", "\n")
+            new, n = re.subn(r"nxprogeny = [^\n]*", "nxprogeny = nmating * nprogeny", src, count=1)
+            if n != 1:
+                raise RuntimeError(f"mutant anchor not found in {fn.__qualname__}: nxprogeny = ...")
+            ns = {}
+            exec(compile("if True:\n" + new, f"<mutant {fn.__qualname__}>", "exec"), fn.__globals__, ns)
+            return lambda: setattr_ctx(cls(k), "mate", ns["mate"])
+
         FLOAT32 = ("rnd = rng.random(gshape, dtype = numpy.float32) if isinstance(rng, numpy.random.Generator) "
                    "else rng.uniform(0, 1, gshape)")
         REP = "numpy.repeat(nprogeny, nmating)"
         ms = [
+            # -- round 4: the repaired defect D70 must be caught if it returns
+            ("r4_self_count_product_in_count_dtype", product_in_count_dtype("self")),
+            ("r4_2w_count_product_in_count_dtype", product_in_count_dtype("2w")),
+            ("r4_3w_count_product_in_count_dtype", product_in_count_dtype("3w")),
+            ("r4_2wdh_progeny_variants_regrouped", src_mutant(cls("2wdh"), "mate",
+                "progeny.group_taxa()", "progeny.group_taxa(); progeny.vrnt_chrgrp is not None and progeny.group_vrnt()")),
+            ("r4_meiosis_xoprob_read_from_base_buffer", both_meiosis("gshape = (len(sel), len(xoprob))",
+                "xoprob = xoprob if xoprob.base is None else numpy.asarray(xoprob.base).ravel()[:len(xoprob)]; "
+                "gshape = (len(sel), len(xoprob))")),
+            ("r4_4w_deep_selfing_takes_neighbouring_line", src_mutant(cls("4w"), "mate",
+                "hgeno = mat_mate(hgeno, hgeno, asel, asel, xoprob, self.rng)",
+                "hgeno = mat_mate(hgeno, hgeno, asel, numpy.roll(asel, 1) if i >= 3 else asel, xoprob, self.rng)")),
+            ("r4_3w_chromosome_starts_reset_phase", chr_reset_ctx("3w")),
+        ] + ([
+            # the cases that kill it are in the self-test base only when the source watch reports a change (else they
+            # run in the thorough tier's main stream)
+            ("r4_2w_selfing_index_int16", src_mutant(cls("2w"), "mate",
+                "asel = numpy.arange(hgeno.shape[1])", "asel = numpy.arange(hgeno.shape[1]).astype('int16')")),
+            ("r4_self_selfing_index_int16", src_mutant(cls("self"), "mate",
+                "ssel = numpy.arange(sgeno.shape[1])", "ssel = numpy.arange(sgeno.shape[1], dtype = 'int16')")),
+        ] if _tree_changed() else []) + [
             # -- round 3: one mutant per class of inputs added in round 3
             ("r3_meiosis_negative_index_clipped", both_meiosis("for i,s in enumerate(sel):",
                 "for i,s in enumerate(numpy.clip(sel, 0, geno.shape[1] - 1)):")),
@@ -1616,7 +1912,7 @@ class C01(Prop):
                 "m1sel = numpy.repeat(xconfig[:,3], nmating)", "m1sel = numpy.repeat(xconfig[:,1], nmating)")),
             # -- mechanism 4: family labels, names, counters
             ("2w_family_counts_reversed", src_mutant(cls("2w"), "mate",
-                "nmating * nprogeny", "(nmating * nprogeny)[::-1]", "last")),
+                "            nmating * nprogeny\n", "            (nmating * nprogeny)[::-1]\n", "last")),
             ("3wdh_family_counts_reversed", src_mutant(cls("3wdh"), "mate", REP, REP + "[::-1]", "last")),
             ("3w_family_labels_shifted_by_one", src_mutant(cls("3w"), "mate",
                 ["self.family_counter,        # start family number (inclusive)",
@@ -1641,7 +1937,7 @@ class C01(Prop):
             ("self_mask_dropped", src_mutant(cls("self"), "mate",
                 "vrnt_mask = pgmat.vrnt_mask,", "vrnt_mask = None,")),
         ]
-        return [(n, (lambda f=f: masked(f))) for n, f in ms]
+        return [(n, (lambda f=f, n=n: masked(f, scope_of(n)))) for n, f in ms]
 
 
 PROP = C01()
